@@ -206,7 +206,7 @@ func tableSizes(tier string) (fixedN, m1N, m2N, unitN int) {
 func numCases(tier string, seed uint64) int {
 	a, b, c, d := tableSizes(tier)
 	if tier == "thorough" {
-		return a + b + c + d + 6000000
+		return a + b + c + d + 40000000
 	}
 	return a + b + c + d + 220000
 }
